@@ -948,6 +948,19 @@ class Model:
         if name == "append" and len(args) == 1 and isinstance(node.func.value, ast.Name):
             st.env[node.func.value.id] = self.seq_append(ex, s, ex.coerce(args[0], s.ty.elem), st)
             return const(None)
+        if name == "pop" and not args and not kwargs and isinstance(node.func.value, ast.Name):
+            # list.pop(): the last element; the list keeps the elements before it (IndexError on an empty list is a safety obligation)
+            n0 = seq_len(s.term)
+            ex.safety("pop from a non-empty list", st, n0 > 0, node, "IndexError")
+            last = V(seq_at(s.term, n0 - 1, s.ty.elem), s.ty.elem)
+            n = V(fresh("seq", Ref), s.ty)
+            i = z3.Int("pi")
+            st.assume(n.term != NONE)
+            st.assume(seq_len(n.term) == n0 - 1)
+            st.assume(z3.ForAll([i], z3.Implies(z3.And(0 <= i, i < n0 - 1), seq_at(n.term, i, s.ty.elem) == seq_at(s.term, i, s.ty.elem))))
+            st.env[node.func.value.id] = n
+            self.type_facts(ex, last, st)
+            return last
         if name == "index" or name == "count":
             raise Unsupported("list." + name)
         raise Unsupported(f"list.{name}")
@@ -1688,6 +1701,17 @@ def _b_tuple(model, ex, args, kwargs, st, node):
     (a,) = args
     if a.ty is TUPLE or isinstance(a.ty, SeqT):
         return a
+    if isinstance(a.ty, SetT):
+        # tuple(set): a sequence with exactly the members of the set, each once; the order (hash order) is not modelled
+        ety = a.ty.elem
+        res = V(fresh("tupleofset", Ref), SeqT(ety))
+        x = z3.Const("tx", ety.sort())
+        i, j = fresh("ti", z3.IntSort()), fresh("tj", z3.IntSort())
+        st.assume(res.term != NONE)
+        st.assume(seq_len(res.term) >= 0)
+        st.assume(z3.ForAll([x], set_mem(a.term, x, ety) == z3.Exists([i], z3.And(0 <= i, i < seq_len(res.term), seq_at(res.term, i, ety) == x))))
+        st.assume(z3.ForAll([i, j], z3.Implies(z3.And(0 <= i, i < j, j < seq_len(res.term)), seq_at(res.term, i, ety) != seq_at(res.term, j, ety))))
+        return res
     if a.ty is PY and isinstance(a.py, tuple) and a.py and a.py[0] == "genexp":
         q = map_seq(model, ex, a, st)
         if q is not None:
@@ -1845,7 +1869,19 @@ def _b_list(model, ex, args, kwargs, st, node):
     raise Unsupported("list(iterable)")
 
 
+def _b_iter(model, ex, args, kwargs, st, node):
+    """iter(seq) is modelled as the sequence itself: exact when the iterator object is consumed by one complete `for` statement (no break, no
+    sharing between two loops) - recorded as an assumption of the run."""
+    if len(args) != 1 or kwargs or not isinstance(args[0].ty, SeqT):
+        raise Unsupported("iter(...) of a non-sequence")
+    note = "iter(s) is read as s itself (each iterator is consumed by exactly one complete for statement)"
+    if note not in model.assumptions:
+        model.assumptions.append(note)
+    return args[0]
+
+
 BUILTINS = {
+    "iter": _b_iter,
     "isinstance": _b_isinstance, "len": _b_len, "bool": _b_bool, "str": _b_str, "any": _b_any, "all": _b_all,
     "next": _b_next, "tuple": _b_tuple, "getattr": _b_getattr, "cast": _b_cast, "issubclass": _b_issubclass,
     "set": _b_set, "frozenset": _b_set, "sorted": _b_sorted, "dict": _b_dict, "list": _b_list, "filter": _b_filter,
